@@ -1,6 +1,7 @@
 package auth
 
 import (
+	"bytes"
 	"crypto/rand"
 	"encoding/hex"
 	"errors"
@@ -97,7 +98,7 @@ func (cr *CryptoSignAuthenticator) Authenticate(sid wamp.ID, details wamp.Dict, 
 			msg.MessageType(), client)
 	}
 
-	verify, err := cr.verifySignature(authRsp.Signature, key)
+	verify, err := cr.verifySignature(authRsp.Signature, key, challenge)
 	if err != nil {
 		return nil, err
 	}
@@ -119,7 +120,11 @@ func (cr *CryptoSignAuthenticator) Authenticate(sid wamp.ID, details wamp.Dict, 
 	return welcome, nil
 }
 
-func (cr *CryptoSignAuthenticator) verifySignature(signature string, publicKey []byte) (bool, error) {
+// verifySignature checks that signature is the hex encoding of a NaCl signed
+// message (64-byte signature followed by the 32-byte message), that it was
+// signed by the holder of publicKey, and that the signed message is the
+// challenge issued in this handshake.
+func (cr *CryptoSignAuthenticator) verifySignature(signature string, publicKey, challenge []byte) (bool, error) {
 	signatureBytes, err := hex.DecodeString(signature)
 	if err != nil {
 		fmt.Println(err)
@@ -130,12 +135,16 @@ func (cr *CryptoSignAuthenticator) verifySignature(signature string, publicKey [
 		return false, fmt.Errorf("signed message has invalid length (was %v, but should have been 96", len(signatureBytes))
 	}
 
-	signedOut := make([]byte, 32)
 	var pubkey [32]byte
 	copy(pubkey[:], publicKey)
-	_, verify := sign.Open(signedOut, signatureBytes, &pubkey)
+	signedMsg, verify := sign.Open(nil, signatureBytes, &pubkey)
+	if !verify {
+		return false, nil
+	}
 
-	return verify, nil
+	// The signed message must be the challenge sent to this client. Without
+	// this, a signed response captured from any other handshake is accepted.
+	return bytes.Equal(signedMsg, challenge), nil
 }
 
 // TODO: Finish implementing extractChannelBinding.
